@@ -85,6 +85,10 @@ func (w *World) ServeLoop(ctx context.Context, ep Endpoint, ch int) {
 func (w *World) onAsk(ep Endpoint, ch int, resp []byte, m Msg) int {
 	res := w.Res
 	res.Checks++
+	if len(m.Payload) == 0 && w.EmptyAskHook != nil {
+		w.EmptyAskHook(ep, ch)
+		return 0
+	}
 	rec := w.asks().byReq[string(m.Payload)]
 	if rec == nil {
 		res.Violate(w.step(), "ask-request-not-asked", "node %d: handler saw a %d byte request nobody asked: %s", ep.Node(), len(m.Payload), w.Led.Diagnose(m.Payload)).With("stack", w.Spec)
